@@ -1053,7 +1053,7 @@ func extractByronTransactionOffsets(
 	cborData []byte,
 	blockArray []cbor.RawMessage,
 ) (*BlockTransactionOffsets, error) {
-	arrayHeaderSize := cborArrayHeaderSize(len(blockArray))
+	arrayHeaderSize := cborArrayHeaderLen(cborData, len(blockArray))
 
 	// blockArray[0] = header, blockArray[1] = body, blockArray[2] = extra
 	headerOffset := arrayHeaderSize
@@ -1083,16 +1083,12 @@ func extractByronTransactionOffsets(
 
 	// Calculate the absolute offset of the tx_payload array within the block.
 	// body starts at bodyOffset, body is an array: [tx_payload, ssc, dlg, upd]
-	bodyArrayHeader := cborArrayHeaderSize(len(bodyParts))
+	bodyArrayHeader := cborArrayHeaderLen(blockArray[1], len(bodyParts))
 	txPayloadOffset := bodyOffset + bodyArrayHeader // tx_payload is bodyParts[0]
 
-	// The tx_payload itself is an array of transaction pairs
-	txPayloadArrayHeader := cborArrayHeaderSize(len(txPayload))
-	// Check for indefinite-length array
-	txPayloadAbsStart := int(txPayloadOffset)
-	if txPayloadAbsStart < len(cborData) && cborData[txPayloadAbsStart] == 0x9f {
-		txPayloadArrayHeader = 1
-	}
+	// The tx_payload itself is an array of transaction pairs; use the header
+	// size actually present on the wire (non-minimal or indefinite-length).
+	txPayloadArrayHeader := cborArrayHeaderLen(bodyParts[0], len(txPayload))
 
 	result := &BlockTransactionOffsets{
 		Transactions: make([]TransactionLocation, len(txPayload)),
@@ -1115,12 +1111,7 @@ func extractByronTransactionOffsets(
 		}
 
 		// Each pair is a 2-element CBOR array: [tx_body, tx_witnesses]
-		pairArrayHeader := cborArrayHeaderSize(len(txPair))
-		// Check for indefinite-length pair array
-		pairAbsStart := int(pairPos)
-		if pairAbsStart < len(cborData) && cborData[pairAbsStart] == 0x9f {
-			pairArrayHeader = 1
-		}
+		pairArrayHeader := cborArrayHeaderLen(rawPair, len(txPair))
 
 		bodyStart := pairPos + pairArrayHeader
 		bodyLen := uint32(len(txPair[0])) // #nosec G115 -- Cardano block segments are <<4GiB
@@ -1178,20 +1169,12 @@ func extractByronOutputOffsets(
 
 	// Calculate offset to the outputs array within the block.
 	// Skip: body array header + inputs element
-	bodyArrayHeader := cborArrayHeaderSize(len(bodyParts))
-	// Check for indefinite-length body array
-	if len(bodyData) > 0 && bodyData[0] == 0x9f {
-		bodyArrayHeader = 1
-	}
+	bodyArrayHeader := cborArrayHeaderLen(bodyData, len(bodyParts))
 	inputsLen := uint32(len(bodyParts[0])) // #nosec G115
-	outputsAbsOffset := bodyOffset + uint32(bodyArrayHeader) + inputsLen
+	outputsAbsOffset := bodyOffset + bodyArrayHeader + inputsLen
 
-	// Determine outputs array header size
-	outputsArrayHeader := uint32(cborArrayHeaderSize(len(outputsRaw)))
-	outputsArrayStart := int(outputsAbsOffset - bodyOffset)
-	if outputsArrayStart >= 0 && outputsArrayStart < len(bodyData) && bodyData[outputsArrayStart] == 0x9f {
-		outputsArrayHeader = 1 // indefinite-length
-	}
+	// Determine outputs array header size from the bytes on the wire
+	outputsArrayHeader := cborArrayHeaderLen(bodyParts[1], len(outputsRaw))
 
 	outputPos := outputsAbsOffset + outputsArrayHeader
 	loc.Outputs = make([]ByteRange, len(outputsRaw))
@@ -1524,7 +1507,7 @@ func ExtractTransactionOffsets(cborData []byte) (*BlockTransactionOffsets, error
 	// Shelley+ block layout: [header, tx_bodies[], witnesses[], metadata_map, ...]
 	// Calculate header size by finding where blockArray[0] starts
 	// CBOR array header is 1 byte for arrays < 24 elements, more for larger
-	arrayHeaderSize := cborArrayHeaderSize(len(blockArray))
+	arrayHeaderSize := cborArrayHeaderLen(cborData, len(blockArray))
 
 	// blockArray[0] is the header, blockArray[1] is tx bodies, blockArray[2] is witnesses
 	// blockArray[3] is metadata (if present)
@@ -1579,14 +1562,9 @@ func ExtractTransactionOffsets(cborData []byte) (*BlockTransactionOffsets, error
 		Transactions: make([]TransactionLocation, len(txBodiesRaw)),
 	}
 
-	// Calculate body offsets within the tx bodies array.
-	// Check for indefinite-length array (0x9f) which uses 1-byte header.
-	var bodiesArrayHeader uint32
-	if int(txBodiesOffset) < len(cborData) && cborData[txBodiesOffset] == 0x9f {
-		bodiesArrayHeader = 1
-	} else {
-		bodiesArrayHeader = cborArrayHeaderSize(len(txBodiesRaw))
-	}
+	// Calculate body offsets within the tx bodies array, using the header
+	// size actually present on the wire (non-minimal or indefinite-length).
+	bodiesArrayHeader := cborArrayHeaderLen(blockArray[1], len(txBodiesRaw))
 	bodyPos := txBodiesOffset + bodiesArrayHeader
 	for i, rawBody := range txBodiesRaw {
 		bodyLen := uint32(len(rawBody)) // #nosec G115 -- Cardano block segments are <<4GiB
@@ -1601,14 +1579,9 @@ func ExtractTransactionOffsets(cborData []byte) (*BlockTransactionOffsets, error
 		bodyPos += bodyLen
 	}
 
-	// Calculate witness offsets within the witnesses array.
-	// Check for indefinite-length array (0x9f) which uses 1-byte header.
-	var witnessArrayHeader uint32
-	if int(witnessesOffset) < len(cborData) && cborData[witnessesOffset] == 0x9f {
-		witnessArrayHeader = 1
-	} else {
-		witnessArrayHeader = cborArrayHeaderSize(len(witnessesRaw))
-	}
+	// Calculate witness offsets within the witnesses array, using the header
+	// size actually present on the wire (non-minimal or indefinite-length).
+	witnessArrayHeader := cborArrayHeaderLen(blockArray[2], len(witnessesRaw))
 	witnessPos := witnessesOffset + witnessArrayHeader
 	for i, rawWitness := range witnessesRaw {
 		if i < len(result.Transactions) {
@@ -1711,15 +1684,15 @@ func extractOutputOffsets(
 			// #nosec G115 -- valueStart is position within a Cardano tx body, well under 4GiB
 			outputsArrayOffset := bodyOffset + headerSize + uint32(valueStart)
 
-			// Determine actual array header size from the data.
-			// For indefinite-length arrays (0x9f), header is 1 byte.
-			// For definite-length arrays, use cborArrayHeaderSize.
+			// Determine the actual array header size from the bytes on the
+			// wire (non-minimal and indefinite-length headers included).
 			arrayStartIdx := int(headerSize) + valueStart
-			var outputsArrayHeader uint32
-			if arrayStartIdx < len(bodyData) && bodyData[arrayStartIdx] == 0x9f {
-				outputsArrayHeader = 1 // indefinite-length array
-			} else {
-				outputsArrayHeader = uint32(cborArrayHeaderSize(len(outputsRaw)))
+			outputsArrayHeader := cborArrayHeaderSize(len(outputsRaw))
+			if arrayStartIdx < len(bodyData) {
+				outputsArrayHeader = cborArrayHeaderLen(
+					bodyData[arrayStartIdx:],
+					len(outputsRaw),
+				)
 			}
 
 			// Track position within outputs array
@@ -1729,31 +1702,8 @@ func extractOutputOffsets(
 			loc.Outputs = make([]ByteRange, len(outputsRaw))
 			for j, rawOutput := range outputsRaw {
 				outputLen := uint32(len(rawOutput)) // #nosec G115 -- Cardano outputs are <<4GiB
-
-				// Validate offset by checking for valid CBOR type byte.
-				// Transaction outputs are either arrays (0x80-0x9f) or maps (0xa0-0xbf).
-				// If the byte at outputPos doesn't match, adjust backward to find the
-				// correct position. This handles edge cases in CBOR array decoding.
-				adjustedOffset := outputPos
-				bodyIdx := int(adjustedOffset - bodyOffset)
-				if bodyIdx >= 0 && bodyIdx < len(bodyData) {
-					byteAtPos := bodyData[bodyIdx]
-					// Check if this is a valid output type byte
-					isValidOutputStart := (byteAtPos >= 0x80 && byteAtPos <= 0x9f) || // array
-						(byteAtPos >= 0xa0 && byteAtPos <= 0xbf) // map
-					if !isValidOutputStart && bodyIdx > 0 {
-						// Check if the previous byte is a valid start
-						prevByte := bodyData[bodyIdx-1]
-						isPrevValid := (prevByte >= 0x80 && prevByte <= 0x9f) ||
-							(prevByte >= 0xa0 && prevByte <= 0xbf)
-						if isPrevValid {
-							adjustedOffset--
-						}
-					}
-				}
-
 				loc.Outputs[j] = ByteRange{
-					Offset: adjustedOffset,
+					Offset: outputPos,
 					Length: outputLen,
 				}
 				outputPos += outputLen
@@ -2243,7 +2193,19 @@ func cborMapInfo(data []byte) (int, uint32, bool) {
 	}
 }
 
-// cborArrayHeaderSize returns the CBOR header size in bytes for an array of given length.
+// cborArrayHeaderLen returns the size in bytes of the array header that data
+// actually starts with: encoders may use a longer-than-minimal length field or
+// the 1-byte indefinite-length form, so the size cannot be derived from the
+// element count alone. If data does not start with a decodable array header,
+// it falls back to the minimal header size for count elements.
+func cborArrayHeaderLen(data []byte, count int) uint32 {
+	if _, size, _ := cborArrayInfo(data); size > 0 {
+		return size
+	}
+	return cborArrayHeaderSize(count)
+}
+
+// cborArrayHeaderSize returns the minimal CBOR header size in bytes for an array of given length.
 func cborArrayHeaderSize(length int) uint32 {
 	if length < 24 {
 		return 1 // 0x80 + length
